@@ -94,7 +94,9 @@ def _tainted_state(argname):
 def _tp_exit(fname):
     def hook(E, outcome, value, env, prefix):
         if outcome != 'normal':
-            return      # a modifier that rejects the value inserts nothing
+            # a function that rejects the value inserts nothing
+            E.oblige('%s::C04.taint_preserved_or_escaped' % prefix, True, kind='post', detail='%s rejects the tainted value (raises)' % fname)
+            return
         E.oblige('%s::C04.taint_preserved_or_escaped' % prefix, bool(tp_ok(E, value)), kind='post',
                  detail="%s of a tainted value is still tainted, or contains no '<' stemming from the raw value" % fname)
     return hook
@@ -123,8 +125,8 @@ def _build():
         if not isinstance(fn, VFn) or fn.qual in seen:
             continue
         seen.add(fn.qual)
-        if nm in ('structured-text', 'restructured-text'):
-            continue        # render through docutils / zope.structuredtext: outside the engine (listed as not decided)
+        if nm in ('restructured-text',):
+            continue        # renders through docutils: outside the engine (listed as not decided)
         first = fn.node.args.args[0].arg
         params = {first: NoneV()}
         for a in fn.node.args.args[1:]:
